@@ -6,6 +6,7 @@ import (
 	"bytes"
 	"context"
 	"encoding/json"
+	"errors"
 	"fmt"
 	"sort"
 	"strings"
@@ -19,6 +20,7 @@ import (
 	"github.com/lightninglabs/pool/account"
 	"github.com/lightninglabs/pool/account/watcher"
 	"github.com/lightninglabs/pool/auctioneerrpc"
+	"github.com/lightninglabs/pool/clientdb"
 	"github.com/lightninglabs/pool/order"
 	"github.com/lightninglabs/pool/poolscript"
 	"github.com/lightninglabs/pool/terms"
@@ -416,7 +418,6 @@ func (e *lcEnv) isAncestor(k int, op wire.OutPoint) bool {
 // ------------------------------------------------------------------ executing ops
 
 type lcRunner struct {
-	knownHit map[string]bool
 	r    *Run
 	e    *lcEnv
 	hist []string
@@ -429,33 +430,66 @@ func lcRes(err error) string {
 	if err == nil {
 		return "ok"
 	}
-	if strings.HasPrefix(err.Error(), "PANIC") {
+	var p *lcPanic
+	if errors.As(err, &p) {
 		return "panic"
 	}
 	return "err"
 }
 
+// lcPanic is the error lcGuard turns a panic of the code under test into.
+type lcPanic struct{ v interface{} }
+
+func (p *lcPanic) Error() string { return fmt.Sprintf("PANIC: %v", p.v) }
+
 func lcGuard(f func() error) (err error) {
 	defer func() {
 		if p := recover(); p != nil {
-			err = fmt.Errorf("PANIC: %v", p)
+			err = &lcPanic{v: p}
 		}
 	}()
 	return f()
 }
 
-var lcValueErrs = []string{"new account value is", "dust", "only pays", "exceeds input value",
-	"error funding PSBT", "insufficient funds", "results in dust", "minimum account value", "maximum account value",
-	"withdrawal output pays to"}
+// quietSince: nothing was written, published or funded since log position from – a call that
+// returned an error this way refused its request before acting on it.  Refusals are recognised
+// by this outcome (and never by the wording of the error).
+func (e *lcEnv) quietSince(from int) bool {
+	e.logMu.Lock()
+	defer e.logMu.Unlock()
+	return len(e.log) == from
+}
 
-func lcIsValueErr(err error) bool {
-	if err == nil {
+// lcClearlyValid: a request the account manager has no reason to refuse – the state admits it, the
+// expiry / version arguments are admissible and the amounts are far from every limit (the exact
+// limits are C07's business; the margins here are wide on purpose).
+func lcClearlyValid(kind string, st account.State, known bool, value, amount int64, oldVer, newVer int,
+	newExp, oldExp, height uint32) bool {
+
+	if !known {
 		return false
 	}
-	for _, s := range lcValueErrs {
-		if strings.Contains(err.Error(), s) {
-			return true
-		}
+	stateOK := st == account.StateOpen || ((kind == "renew" || kind == "close") && st == account.StateExpired)
+	if !stateOK || newVer < oldVer {
+		return false
+	}
+	if newExp != 0 && (newExp < height+144+6 || newExp > height+52000) {
+		return false
+	}
+	if kind == "renew" && newExp == 0 {
+		return false
+	}
+	if st == account.StateExpired && kind == "renew" && newExp == 0 {
+		return false
+	}
+	const margin = 50000 // far above any fee at the floor fee rate
+	switch kind {
+	case "deposit":
+		return amount > 0 && amount <= 100000 && value+amount < 500000000
+	case "withdraw":
+		return amount >= 20000 && value-amount-margin >= int64(account.MinAccountValue)
+	case "renew", "close":
+		return value-margin >= int64(account.MinAccountValue)
 	}
 	return false
 }
@@ -567,6 +601,8 @@ func (x *lcRunner) exec(o lcOp) {
 		res      = "ok"
 		userOp   string
 		accepted bool
+		// a request that was refused without any reason the harness can see
+		refusedValid string
 	)
 	key := func(k int) *btcec.PublicKey { return e.accts[k].key.PubKey }
 	completes := o.Op == "complete" || o.Op == "finalize" || o.Op == "spend2" || o.Op == "spendc" ||
@@ -718,12 +754,27 @@ func (x *lcRunner) exec(o lcOp) {
 		r.Count("mod/" + o.Kind + "/" + res)
 		nv, vok, tx, idx, sg := int64(0), 1, 0, uint32(0), 0
 		if err == nil {
-			rec, _ := e.db.Account(key(o.K))
-			nv, tx, idx, sg = int64(rec.Value), e.txName(rec.OutPoint.Hash), rec.OutPoint.Index, lcSigned(rec.LatestTx)
+			if rec, rerr := e.db.Account(key(o.K)); rerr == nil {
+				nv, tx, idx, sg = int64(rec.Value), e.txName(rec.OutPoint.Hash), rec.OutPoint.Index, lcSigned(rec.LatestTx)
+			}
 			accepted = true
-		} else if lcIsValueErr(err) {
+		} else if res == "err" && e.quietSince(logFrom) {
+			// refused before anything was written, published or funded
 			vok = 0
-			r.Count("mod/value-refused")
+			r.Count("mod/refused-clean")
+			rec, rerr := e.db.Account(key(o.K))
+			st, known := before.state[o.K]
+			if rerr == nil && o.Kind2 != "own" && !e.wallet.failFunding && !e.wallet.failList &&
+				lcClearlyValid(o.Kind, st, known, int64(rec.Value), o.A, int(rec.Version), o.V, newExp, rec.Expiry, e.height) {
+
+				amt := o.A
+				if o.Kind == "renew" {
+					amt = 0
+				}
+				refusedValid = fmt.Sprintf("%s (amount %d) on account %d (state %v, value %d, expiry %d -> %d, version %d -> %d) "+
+					"was refused although nothing speaks against it: %v", o.Kind, amt, o.K, st, rec.Value, rec.Expiry, newExp,
+					rec.Version, o.V, err)
+			}
 		}
 		userOp = fmt.Sprintf("%s %d", o.Kind, o.K)
 		line = fmt.Sprintf("mod %d %s %d %d %d %d %d %d %d %d", o.K, o.Kind, nv, vok, newExp, o.V, e.height, tx, idx, sg)
@@ -741,8 +792,14 @@ func (x *lcRunner) exec(o lcOp) {
 		if err == nil {
 			name, sg = e.txName(tx.TxHash()), lcSigned(tx)
 			accepted = true
-		} else if lcIsValueErr(err) {
+		} else if res == "err" && e.quietSince(logFrom) {
 			ok = 0
+			rec, rerr := e.db.Account(key(o.K))
+			st, known := before.state[o.K]
+			if rerr == nil && lcClearlyValid("close", st, known, int64(rec.Value), 0, 0, 0, 0, rec.Expiry, e.height) {
+				refusedValid = fmt.Sprintf("close of account %d (state %v, value %d) was refused although nothing speaks "+
+					"against it: %v", o.K, st, rec.Value, err)
+			}
 		}
 		userOp = fmt.Sprintf("close %d", o.K)
 		line = fmt.Sprintf("close %d %d %d %d %d", o.K, e.height, name, ok, sg)
@@ -813,8 +870,7 @@ func (x *lcRunner) exec(o lcOp) {
 		case rg.spendCh <- det:
 			<-e.spendDone
 			res = lcRes(e.lastHandlerErr)
-			if res == "err" && !strings.Contains(e.lastHandlerErr.Error(), "unknown spend witness") &&
-				!strings.Contains(e.lastHandlerErr.Error(), "feeRate should") {
+			if res == "err" {
 				r.Count("spend/handler-error")
 			}
 		case <-time.After(5 * time.Second):
@@ -1060,6 +1116,18 @@ func (x *lcRunner) exec(o lcOp) {
 			r.Count(fmt.Sprintf("state/%s", st))
 		}
 	}
+	// every stored record can be read back (a record the store refuses to decode is lost to the
+	// manager: it can neither be resumed nor closed)
+	if x.bad == "" {
+		for k := 1; k <= lcNumAccts; k++ {
+			_, rerr := e.db.Account(e.accts[k].key.PubKey)
+			if rerr != nil && !errors.Is(rerr, clientdb.ErrAccountNotFound) {
+				x.fail(fmt.Sprintf("after op #%d (%s): the stored record of account %d (state before: %v) cannot be read back: %v",
+					len(x.hist)-1, line, k, before.state[k], rerr), "C08/record-unreadable")
+				break
+			}
+		}
+	}
 	// no early expiry: an account is only marked expired once the chain has reached its
 	// stored expiry height
 	if x.bad == "" && o.Op != "expd" {
@@ -1071,11 +1139,9 @@ func (x *lcRunner) exec(o lcOp) {
 			}
 			if (a.State == account.StateExpired || a.State == account.StateExpiredPendingUpdate) &&
 				prev != account.StateExpiredPendingUpdate && a.Expiry > e.height {
+				// (the former open finding C08/expired-early-extension is fixed – af64c47 – so
+				// every early expiry is a violation, whatever changed the expiry last)
 				key := "C08/expired-early"
-				if c := e.extBy[k]; c != "" && c != "renew" {
-					// the expiry was extended by a deposit / withdrawal / batch
-					key = "C08/expired-early-extension"
-				}
 				x.fail(fmt.Sprintf("after op #%d (%s): account %d with expiry %d was marked %v at height %d (expiry last changed by: %s)",
 					len(x.hist)-1, line, k, a.Expiry, a.State, e.height, e.extBy[k]), key)
 			}
@@ -1084,6 +1150,9 @@ func (x *lcRunner) exec(o lcOp) {
 	if x.bad == "" && expirySpend && len(batchBefore) > 0 && len(e.batchAccts) == 0 && res == "ok" {
 		x.fail(fmt.Sprintf("after op #%d (%s): an expiry-path spend of account %d committed the staged batch of accounts %v",
 			len(x.hist)-1, line, o.K, batchBefore), "C08/expiry-spend-completed-batch")
+	}
+	if x.bad == "" && refusedValid != "" {
+		x.fail(fmt.Sprintf("after op #%d (%s): %s", len(x.hist)-1, line, refusedValid), "C08/refused-valid")
 	}
 	if x.bad == "" && staleSpendOf != 0 {
 		after := e.snapshot()
@@ -1142,22 +1211,6 @@ func (x *lcRunner) fail(what, key string) {
 		if x.e.taint[acc] {
 			key = "C08/complete-without-rewatch"
 		}
-	}
-	if key == "C08/expired-early-extension" {
-		// an open known finding without consequences for the rest of the history: record it
-		// once and keep checking
-		if !x.knownHit[key] {
-			if x.knownHit == nil {
-				x.knownHit = map[string]bool{}
-			}
-			x.knownHit[key] = true
-			x.r.Count("viol/" + key)
-			if lcSeenViol[key] < 2 {
-				lcSeenViol[key]++
-				x.r.Violate(what, key, map[string]interface{}{"ops": x.ops, "trace": append([]string(nil), x.hist...)})
-			}
-		}
-		return
 	}
 	if x.bad == "" {
 		x.bad, x.key = what, key
